@@ -82,6 +82,8 @@ def _cost(field: str, term: str, et: str, coef: str | None = None) -> float:
 
 def _est(case) -> float:
     k = case["kind"]
+    if k == "nonsym":
+        return 1.0
     if k == "bilinear":
         return sum(_cost(case["field"], t, case["elemType"]) for t in case["program"])
     if k == "simu":
@@ -185,8 +187,66 @@ def _simu_cases(tier):
     return out
 
 
+def _nonsym_cases(tier):
+    """forms that are NOT symmetric in (u, v): grad(u).A.grad(v) with a non-symmetric A, and the vector coupling (u@R).v with a
+    non-symmetric R.  Entry (i, j) of Integrate_e is the form evaluated on (u = shape function i, v = shape function j); which of the
+    two indexes the rows is a convention, so the oracle is {M, M^T}: the element array must equal the directly integrated array or its
+    transpose (consistently over all elements) - a symmetrised or half-evaluated array is neither."""
+    out = []
+    ets = ["TRI3", "QUAD4", "TRI6", "QUAD8", "TETRA4", "HEXA8"] if tier == "quick" else list(Z.TYPES_2D + Z.TYPES_3D)
+    for et in ets:
+        for form in ("gradAgrad", "uRv"):
+            for mk in _meshkinds(et):
+                out.append({"kind": "nonsym", "form": form, "elemType": et, "mesh": mk})
+    return out
+
+
+def _run_nonsym(case):
+    from EasyFEA.FEM import BiLinearForm, Field, MatrixType
+
+    et, form = case["elemType"], case["form"]
+    mesh = _zoo(et, case["mesh"]).build()
+    g = mesh.groupElem
+    d = g.dim
+    r = rng("c13nonsym", et, form)
+    key = dict(form=form, elemType=et, mesh=case["mesh"])
+    mt = MatrixType.mass
+    wJ = np.asarray(g.Get_weightedJacobian_e_pg(mt))
+    if form == "gradAgrad":
+        A = r.normal(size=(d, d))
+        A = A + 2.0 * np.triu(np.abs(A), 1)  # clearly non-symmetric
+        field = Field(g, 1, mt)
+        data = np.asarray(BiLinearForm(lambda u, v: (u.grad @ A).dot(v.grad)).Integrate_e(field))
+        dN = np.asarray(g.Get_dN_e_pg(mt))  # (Ne, nPg, dim, nPe)
+        M = np.einsum("ep,epki,kl,eplj->eij", wJ, dN, A, dN)
+    else:
+        R = r.normal(size=(d, d))
+        R = R + 2.0 * np.triu(np.abs(R), 1)
+        field = Field(g, d, mt)
+        data = np.asarray(BiLinearForm(lambda u, v: (u() @ R).dot(v())).Integrate_e(field))
+        N = np.asarray(g.Get_N_pg(mt))[:, 0, :]  # (nPg, nPe)
+        Ms = np.einsum("ep,pi,pj->eij", wJ, N, N)
+        nPe = g.nPe
+        M = np.zeros((g.Ne, nPe * d, nPe * d))
+        for a in range(d):
+            for b in range(d):
+                M[:, a::d, b::d] = Ms * R[a, b]
+    v = []
+    sc = max(np.abs(M).max(), 1e-300)
+    asym = np.abs(M - np.swapaxes(M, 1, 2)).max() / sc
+    e1 = np.abs(data - M).max() / sc if data.shape == M.shape else np.inf
+    e2 = np.abs(data - np.swapaxes(M, 1, 2)).max() / sc if data.shape == M.shape else np.inf
+    if asym < 1e-3:
+        return {"violations": [], "skipped": "reference turned out symmetric", "fingerprint": "sym", "nontrivial": False}
+    if min(e1, e2) > 1e-11:
+        v.append(viol("nonsymmetric_form", f"{form} on {et}/{case['mesh']}: Integrate_e is neither the directly integrated array (rel err {e1:.2e}) nor its transpose ({e2:.2e}); "
+                                           f"asymmetry of the reference {asym:.2f}", **key))
+    return {"violations": v, "fingerprint": fp(form, et, case["mesh"], data), "nontrivial": True, "transitions": 1,
+            "outcome": "agree" if not v else "violation"}
+
+
 def cases(tier, seed):
-    out = _single_cases(tier) + _pair_cases(tier) + _linear_cases(tier) + _assemble_cases(tier) + _simu_cases(tier)
+    out = _single_cases(tier) + _pair_cases(tier) + _linear_cases(tier) + _assemble_cases(tier) + _simu_cases(tier) + _nonsym_cases(tier)
     # ordering only (the set is unchanged): the runner hands out chunks of 8 consecutive cases; deal the cases, longest first,
     # round-robin into the chunks so that every chunk costs about the same, and put the cheap ones first inside a chunk
     out.sort(key=lambda c: -_est(c))
